@@ -32,6 +32,20 @@ def run(ctx):
         extra.append(spell.generate(ctx, "Gen_Spell", prm2))
         os.rename(extra[-1], ctx.path("req_%s.ndjson" % kind))
         extra[-1] = ctx.path("req_%s.ndjson" % kind)
+    # two numbers being decoded at once by one interpreter (hidden state shared between builders): word sequences of Gen_Apply paired up
+    prm3 = dict(allpairs=False, pairs=250 if q else 3000, randn=250 if q else 3000, seed=ctx.seed % 100000)
+    ap = spell.generate(ctx, "Gen_Apply", prm3)
+    seqs = {}
+    for r in vlib.read_ndjson(ap):
+        if not r["dec"] and len(r["words"]) >= 2:
+            seqs.setdefault(r["lang"], []).append(r["words"])
+    inter = ctx.path("req_interleave.ndjson")
+    with open(inter, "w", encoding="utf-8") as f:
+        for lang, ws in seqs.items():
+            for j in range(0, len(ws) - 1, 2):
+                for via in ("concrete", "facade"):
+                    f.write(json.dumps({"mode": "interleave", "lang": lang, "via": via, "wa": ws[j], "wb": ws[j + 1]}, ensure_ascii=False) + "\n")
+    extra.append(inter)
     with open(req, "ab") as f:
         base = 500000000
         for e in extra:
@@ -39,7 +53,7 @@ def run(ctx):
                 d = json.loads(line)
                 base += 1
                 d["i"] = base
-                d["mode"] = "text"
+                d.setdefault("mode", "text")
                 f.write((json.dumps(d, ensure_ascii=False) + "\n").encode("utf-8"))
     obs = ctx.path("obs.ndjson")
     nthreads = 8 if q else 16
@@ -90,12 +104,12 @@ def run(ctx):
     for f in bad:
         kk = f["i"]
         rq = reqs.get(klist[kk]) if 0 <= kk < len(klist) else None
-        sig = dict(verdict=f["verdict"], lang=(rq or {}).get("lang"), input=(rq or {}).get("text") or (rq or {}).get("words") or (rq or {}).get("texts"),
+        sig = dict(verdict=f["verdict"], lang=(rq or {}).get("lang"), input=(rq or {}).get("text") or (rq or {}).get("words") or (rq or {}).get("texts") or [(rq or {}).get("wa"), (rq or {}).get("wb")],
                    output=(h["stdout"][:200] + h["stderr"][:200]) if f["verdict"] == "output-on-standard-streams" else "")
         ctx.failures.append(dict(verdict=f["verdict"], cls="%s/%s" % (f["verdict"], sig["lang"]), sig=sig, request=rq))
     ctx.nontrivial = len(reqs)
     for r in list(reqs.values())[:3]:
-        ctx.samples.append(dict(lang=r["lang"], mode=r.get("mode"), input=r.get("text") or r.get("words") or r.get("texts"), vias=r.get("vias")))
+        ctx.samples.append(dict(lang=r["lang"], mode=r.get("mode"), input=r.get("text") or r.get("words") or r.get("texts") or [r.get("wa"), r.get("wb")], vias=r.get("vias")))
     ctx.extra["threads"] = nthreads
     ctx.extra["distinct_calls"] = len(reqs)
     ctx.rule = ("call set generated by Gen_Facade (all languages' words and seeded texts through every language, concrete type and facade, "
